@@ -115,8 +115,8 @@ Qed.
 
 Lemma vok_obj d m : keys_sorted m = true -> Forall (mok d) m -> vok (S d) (JObj m).
 Proof.
-  intros S H. split.
-  - unfold vgood. cbn [strings_ok maps_ok no_undef]. rewrite S. cbn [andb].
+  intros Hs H. split.
+  - unfold vgood. cbn [strings_ok maps_ok no_undef]. rewrite Hs. cbn [andb]. clear Hs.
     assert (forallb (fun kx : list N * jv => utf8_valid (fst kx) && strings_ok utf8_valid (snd kx)) m = true /\
             forallb (fun kx : list N * jv => maps_ok (snd kx)) m = true /\
             forallb (fun kx : list N * jv => no_undef (snd kx)) m = true) as [A [B C]].
